@@ -21,6 +21,11 @@ class Message:
     def _check_args(self):
         if any(type(arg)(' ') in arg in arg for arg in self.args[:-1] if isinstance(arg, str)):
             raise Error('Space can only appear in the very last arg')
+        if any(not arg or arg.startswith(':') for arg in self.args[:-1] if isinstance(arg, str)):
+            # (it would be taken for the trailing arg / not be there at all)
+            raise Error('Only the very last arg can be empty or start with a colon')
+        if any(' ' in value for value in (self.command, self.prefix) if isinstance(value, str)):
+            raise Error('No space allowed in command or prefix')
         values = [*self.args, self.command, self.prefix]
         if any('\n' in value or '\r' in value for value in values if isinstance(value, str)):
             raise Error('No newline allowed')
